@@ -6,7 +6,7 @@
    exhibited on the model (open findings K2, K14; the IndexError K3 is fixed, F11). *)
 From Coq Require Import ZArith List Bool String PArith.
 From Droop Require Import Model.KernelBase Model.Arith Model.Prelude Model.State Model.Prims Model.Election
-  Proofs.CmdMeta Proofs.Decided Proofs.Forward Proofs.ForwardCount Proofs.Zlike Proofs.Terminate Proofs.TerminateMeek.
+  Proofs.CmdMeta Proofs.Decided Proofs.Forward Proofs.ForwardCount Proofs.Zlike Proofs.Terminate Proofs.TerminateMeek Proofs.TerminateQpq.
 Import ListNotations.
 Open Scope Z_scope.
 
@@ -63,6 +63,14 @@ Theorem C01_meek_prf_counts_terminate_partial : forall A S (ZL : zlike A S) cfg,
   exists s k, exec (@crashed A) fuel (count_cmd A cfg RMeekPrf) (init_state A cfg pr) = Some (s, k).
 Proof. exact meek_prf_count_terminates. Qed.
 Print Assumptions C01_meek_prf_counts_terminate_partial.
+
+(* ... and QPQ under every arithmetic.  QPQ restarts after each exclusion (every winner goes back to hopeful), so the
+   measure is lexicographic: (N+1) x candidates still in the running + (N if a restart is pending, else the hopefuls). *)
+Theorem C01_qpq_counts_terminate_partial : forall A cfg pr fuel, NoDup (map pc_cid (pr_cands pr)) ->
+  ((List.length (pr_cands pr) + 1) * (List.length (pr_cands pr) + 1) < Pos.to_nat fuel)%nat ->
+  exists s k, exec (@crashed A) fuel (count_cmd A cfg RQpq) (init_state A cfg pr) = Some (s, k).
+Proof. exact qpq_count_terminates. Qed.
+Print Assumptions C01_qpq_counts_terminate_partial.
 
 (* the full statement is FALSE for meek under guarded arithmetic with guard > 0: the model (which agrees with the
    code on this input, corpus K2) ends in a ZeroDivisionError.  5 candidates, 4 seats, ballots "1: 3 1 5", "5: 5". *)
